@@ -29,6 +29,7 @@ fn main() {
     let mut replay_file: Option<String> = None;
     let mut child = false;
     let mut scale = 100u64;
+    let mut mini = false;
     let mut i = 2;
     while i < args.len() {
         match args[i].as_str() {
@@ -45,6 +46,7 @@ fn main() {
                 replay_file = Some(args[i].clone());
             }
             "--child" => child = true,
+            "--mini" => mini = true,
             "--scale" => {
                 i += 1;
                 scale = args[i].parse().unwrap_or(100);
@@ -88,7 +90,7 @@ fn main() {
         replay = Some((stream, idx));
     }
     let threads = std::env::var("VERIF_THREADS").ok().and_then(|s| s.parse().ok()).unwrap_or(16usize);
-    let cfg = Cfg { prop: prop.clone(), tier, seed, known, replay, profile: profile_name(), threads, scale_pct: scale };
+    let cfg = Cfg { prop: prop.clone(), tier, seed, known, replay, profile: profile_name(), threads, scale_pct: scale, mini };
     install_quiet_panic_hook();
     let t0 = Instant::now();
     let (rep, extra) = verif_harness::engines::dispatch(&cfg, child);
